@@ -165,6 +165,51 @@ func compoundScenarios(c *CheckRun) []*Scenario {
 	return out
 }
 
+// NOT ENABLED (round 10): this family did not finish within a 300 s cap on a loaded machine and there was
+// no time left to find the slow member, so C12 does not run it; the emptied-tree clause on the numeric,
+// compound and collation implementations stays with C01/C06/C08 (ins-del-ins templates), see DESIGN §10.
+// emptiedScenarios (C12, second clause): every tree implementation is emptied by deletions and used again.
+// All keys are symbolic (numeric) or symbolic-byte shapes (byte-string, codec tables, collation keys), so
+// the paths where the deleted keys equal the inserted ones are the emptied-tree histories; the others
+// come for free. Everything is compared with the reference map, i.e. with a fresh tree.
+func emptiedScenarios(c *CheckRun) []*Scenario {
+	var out []*Scenario
+	mask := ckMap | ckSize | ckIter | ckShape
+	seqs := func(s0, s1, s2 int) [][][2]int {
+		return [][][2]int{
+			{{opInsert, s0}, {opDelete, s0}, {opInsert, s1}},
+			{{opInsert, s0}, {opInsert, s1}, {opDelete, s1}, {opDelete, s0}, {opInsert, s2}},
+		}
+	}
+	kinds := []int{kindU16, kindI16, kindF32}
+	if c.Tier != "quick" {
+		kinds = numericAll
+	}
+	for _, k := range kinds {
+		for _, seq := range seqs(0, 0, 0) {
+			out = append(out, histB{kind: k, mask: mask, ops: seq, probes: []int{0}, label: "emptied by deletion, used again"}.scn())
+		}
+	}
+	for _, k := range []int{kindAlphaB, kindAlphaS} {
+		for _, seq := range seqs(aSpec(0, 1), aSpec(0, 2), aSpec(0, 1)) {
+			out = append(out, histB{kind: k, mask: mask, ops: seq, probes: []int{aSpec(0, 2)}, label: "emptied by deletion, used again"}.scn())
+		}
+	}
+	for _, seq := range seqs(cSpec(0, 1), cSpec(1, 2), cSpec(2, 2)) {
+		s := histB{kind: 17, mask: mask, ops: seq, probes: []int{cSpec(1, 2)}, label: "emptied by deletion, used again"}.scn()
+		s.Harness = "hCompound"
+		out = append(out, s)
+	}
+	for _, k := range []int{14, 16} {
+		for _, seq := range seqs(cSpec(0, 1), cSpec(3, 2), cSpec(2, 2)) {
+			s := histB{kind: k, mask: mask, ops: seq, probes: []int{cSpec(3, 2)}, label: "emptied by deletion, used again"}.scn()
+			s.Harness = "hColl"
+			out = append(out, s)
+		}
+	}
+	return out
+}
+
 // ---- C10 ----------------------------------------------------------------------------------------
 
 func nodeScenarios(c *CheckRun) []*Scenario {
@@ -664,6 +709,11 @@ func gcScenarios(c *CheckRun) []*Scenario {
 			out = append(out, simple("hGC", fmt.Sprintf("tree %s, value type %s", kindNames[k], []string{"*int", "string", "[]int", "struct{}", "[16]uint64"}[v]), k, v, n))
 		}
 	}
+	// a value of 5 bytes: the offset of the leaf field behind the value depends on that field's own width, so two
+	// leaf layouts that agree for word-multiple values (and are natively indistinguishable there) differ here
+	for _, k := range []int{0, 3, 8, 12} {
+		out = append(out, simple("hGC", fmt.Sprintf("tree %s, value type [5]byte", kindNames[k]), k, 5, 1))
+	}
 	// keys sharing 100 and 300 bytes: compressed paths longer than a node4 / node16 object, with Range over them
 	for _, stem := range []int{100, 300} {
 		for _, v := range []int{0, 4} {
@@ -687,7 +737,7 @@ func init() {
 		ID: "C18", Level: "model_checking", Summaries: true, Rule: stateRule,
 		ReplayGcflags: "all=-d=checkptr",
 		Scenarios:     gcScenarios,
-		Bounds: []string{"value types *int, string, []int, struct{}, [16]uint64 × trees byte-string []byte/string, uint16, int16, float32, collation string; 1-3 symbolic inserts, one overwrite, one delete, read-back by Search, All and (numeric kinds) Range",
+		Bounds: []string{"value types *int, string, []int, struct{}, [16]uint64 (and [5]byte on byte-string, uint16, int16, float32 trees) × trees byte-string []byte/string, uint16, int16, float32, collation string; 1-3 symbolic inserts, one overwrite, one delete, read-back by Search, All and (numeric kinds) Range",
 			"every unsafe.Pointer -> *T conversion on every path is checked against the object actually pointed to: identical type, first-field / enclosing-struct, same-size scalar, or identical flattened layout (offsets, sizes, pointer-ness) — anything else is a fault; uintptr<->unsafe.Pointer conversions and unsafe.Slice beyond the allocation are faults"},
 		Outside:     []string{"the garbage collector itself cannot be run symbolically: the claim is that the code obeys the unsafe.Pointer rules that make collector timing irrelevant, plus value integrity; native replay runs with forced collections", "larger histories"},
 		Assumptions: append([]string{"Go's precise collector is correct for programs that obey the unsafe.Pointer rules"}, commonAssume...),
